@@ -199,7 +199,7 @@ func (c *Ctx) RunTLC(o TLCOpts) (*TLCResult, error) {
 	if o.Workers == 1 && !o.ParallelGC {
 		gc = "-XX:+UseSerialGC" // many single-worker JVMs run side by side: parallel GC threads only fight each other (4x slower, measured)
 	}
-	args := []string{gc, fmt.Sprintf("-Xmx%dm", o.HeapMB), "-Xss64m", "-cp", tlaJars, "tlc2.TLC",
+	args := []string{gc, fmt.Sprintf("-Xmx%dm", o.HeapMB), "-Xss512m", "-cp", tlaJars, "tlc2.TLC",
 		"-workers", strconv.Itoa(o.Workers), "-metadir", meta, "-noGenerateSpecTE", "-seed", strconv.FormatInt(c.Seed, 10)}
 	if o.Cfg != "" {
 		args = append(args, "-config", o.Cfg)
